@@ -28,7 +28,7 @@ CHECKS = {
                        "values the source emitted into the pipe, notification_out_total = values the subscribers received, one lag observation per source value, and per operator index "
                        "one processing-time observation per value leaving that operator; the stand-alone counters equal the Next/Error/Complete/subscription events. Licence off: "
                        "nothing exported, stand-alone operators are the identity."
-                       " Per-operator processing-time counts are compared with the values that descend from a value that ENTERED the operator (each slot's tap marks the context), so the listed finding covers only the operator that emits on its own."),
+                       " Per-operator processing-time counts are compared with the values that descend from a value that ENTERED the operator (each slot's tap marks the context), so the listed finding covers only the operator that emits on its own. The collector is also registered with a pedantic registry BEFORE the first subscription (Describe must agree with what Collect later yields), and a consumer that emits the next value from inside its Next callback is run through instrumented and plain pipes of lock-free operators: same trace, no deadlock."),
         "level_note": "One listed finding (no processing-time observation for values emitted off the item path). In/lag/per-operator equalities are asserted for chains without early-terminating or re-subscribing stages (a synchronous source keeps emitting into a closed chain there).",
     },
     "C18": {
@@ -49,13 +49,13 @@ CHECKS = {
                        "EOF and injected read faults; no operator modifies the value it was handed or a value already delivered; every plugin row keeps grammar, source release and context."
                        " Time operators are also fed moments within a day of a zone-offset change in six daylight-saving locations (time/tzdata linked in)."
                        " time.Parse is judged with the process's local zone drawn from the same locations (zone abbreviations and offsets are matched against time.Local)."
-                       " Random(size, charset) of the text plugins by a validity predicate (exactly size characters, all from the charset, for charsets of 1..68 characters incl. multi-byte runes); ParseUint64 and FormatComplex against strconv."),
+                       " Random(size, charset) of the text plugins by a validity predicate (exactly size characters, all from the charset, for charsets of 1..68 characters incl. multi-byte runes); ParseUint64 and FormatComplex against strconv. The JSON plugin is also driven with types whose MarshalJSON / UnmarshalJSON have pointer receivers, by value and by pointer, against encoding/json called directly."),
         "level_note": "One listed finding pinned by the plugins' own tests (byte-wise word splitting on non-ASCII text).",
     },
     "C20": {
         "run": "^TestC20_",
         "rule": ("cases = (limiter {native, ulule with the in-memory store}, quota 1-3, window 5-40 ms (ulule: 3-10 ms, or one hour for the exact model), 1-3 keys, arrival timeline "
-                 "{burst, steady, sparse, mixed}, ending, synchronous or asynchronous source). Non-trivial = some key exceeds its quota inside one window, i.e. the limiter has to "
+                 "{burst, steady, sparse, mixed}, ending, synchronous or asynchronous source; native: items may each carry a context of their own, one of which - or every one, a few items later - is cancelled mid-stream). Non-trivial = some key exceeds its quota inside one window, i.e. the limiter has to "
                  "drop; distinct by descriptor hash."),
         "quick": {"rapid": 1200, "timeout": 300, "shards": 4},
         "thorough": {"rapid": 6000, "timeout": 3000, "shards": 16},
@@ -64,7 +64,9 @@ CHECKS = {
         "level_text": ("Exploration. For every generated timeline: per key, the items passed within any span L never exceed quota x (floor(L/window) + 2); per key the output is a "
                        "strictly increasing subsequence of that key's input (order kept, nothing duplicated or invented); with a period far longer than the run exactly the first "
                        "`quota` items of each key pass, keys independently; completion and error of the source reach the subscriber; the native limiter leaves no goroutine behind."
-                       " The ulule limiter is also shared by 2..8 concurrent streams: the quota of a key holds for what all of them let through together."),
+                       " The ulule limiter is also shared by 2..8 concurrent streams: the quota of a key holds for what all of them let through together."
+                       " Native limiter with per-item contexts that are cancelled while the stream goes on (as after ContextWithTimeout): the bound still holds for every key, the other keys "
+                       "and the source's own ending are unaffected."),
         "level_note": "No 'nothing is lost' clause: the property does not state one.",
     },
     "C17": {
@@ -100,7 +102,7 @@ CHECKS = {
                        "periodic values are 0,1,2.., delayed values keep emission order, a timeout needs a full quiet period and never follows the source's terminal, sampled / "
                        "throttled / buffered outputs are a sub-sequence (prefix) of the source with at most one value per period, and nothing is delivered after Unsubscribe or "
                        "(for the context-aware stages) cancellation. ThrottleTime, TimeInterval, Timestamp and Timeout-with-a-slow-observer run in real time with one-sided bounds."
-                       " Delay / DelayEach with the context cancelled while a producer that does not watch the context goes on: nothing arrives early."),
+                       " Delay / DelayEach with the context cancelled while a producer that does not watch the context goes on: nothing arrives early. ThrottleTime with a period far longer than the run, in real time: exactly the first value of every subscription passes."),
         "level_note": "Only what the property states is asserted (lower bounds on time, order and count relations): exact firing times and losslessness are not.",
     },
     "C14": {
@@ -261,7 +263,7 @@ CHECKS = {
                        "truth); races between the ways a subscription ends; and for every operator of the catalogue that, once the subscription is closed and Subscribe "
                        "has returned, each upstream subscription's teardown ran exactly once and a TapOnFinalize below the pipeline ran exactly once."
                        " Higher-order operators (ConcatAll, MergeAll, CombineLatestAll, ZipAll, MergeMap, FlatMap) are also fed by an ASYNCHRONOUS outer producer and cut from outside at every position: every inner source released, the producer not left blocked inside the operator, nothing delivered afterwards."
-                       " MergeAll / MergeMap over a LIVE outer observable (inners arriving over time, interleaved with the notifications of the running ones, optional Take downstream): per-inner live count after every step and after the cut."),
+                       " MergeAll / MergeMap over a LIVE outer observable (inners arriving over time, interleaved with the notifications of the running ones, optional Take downstream): per-inner live count after every step and after the cut. A subscription whose teardown panicked must still be usable: a second Unsubscribe and Wait return (watchdog), they do not deadlock."),
         "level_note": ("Race part is statistical. Goroutine-leak freedom of asynchronous rows is asserted in the bubble-based checks (C14/C16/C17), not here."),
     },
     "C08": {
@@ -379,7 +381,7 @@ CHECKS = {
                        " Sum, Average, Min, Max, Clamp and Count are run over every numeric element type (int8..uint64, float32/64, values at the type's limits) against exact rational arithmetic."
                        " Dematerialize over arbitrary notification streams (in-band and out-of-band endings, Take upstream); for every operator that delivers slices or maps, a consumer that clears whatever it receives must be delivered the same sequence as a passive one."
                        " Every catalogue row is also fed a stream that ends with Error(nil) (the library accepts it): same values and same kind of ending as with a non-nil error."
-                       " Round / Abs / Floor / Ceil / Trunc against the math package bit for bit; FloorWithPrecision / CeilWithPrecision(places in -1000..1000) against a validity predicate in exact rational arithmetic (the multiple of 10^-places next to the value - or to a neighbour within two ulps, a float64 standing for the decimal the user wrote -, +-Inf where the ideal result leaves the float64 range)."),
+                       " Round / Abs / Floor / Ceil / Trunc against the math package bit for bit; FloorWithPrecision / CeilWithPrecision(places in -1000..1000) against a validity predicate in exact rational arithmetic (the multiple of 10^-places next to the value - or to a neighbour within two ulps, a float64 standing for the decimal the user wrote -, +-Inf where the ideal result leaves the float64 range). Memory ownership of delivered containers: a consumer that overwrites the spare capacity of every slice it was handed must not change anything delivered later (an operator may not keep writing into memory it handed out)."),
         "level_note": ("Trusts the hand-written reference models (harness/model) and the documentation reading recorded in DESIGN.md appendix A. "
                        "Time-driven, hand-off and multi-source rows are judged by C05/C08/C16/C17, float rounding helpers by validity predicates only."),
     },
